@@ -311,13 +311,13 @@ Proof.
   - destruct (N.eqb r cLT) eqn:Elt.
     + cbn [negb]. destruct (prefixb _ _) eqn:Ecl; [|apply Hnone].
       destruct (N.eqb r cGT) eqn:Egt; [|apply Hnone].
-      cbn [rinv]; unfold ainv. split; [|exact I].
-      constructor; [apply tok_ok_noattr|]. constructor; [apply tok_ok_noattr|exact Htoks].
+      destruct (firstn _ _); cbn [rinv]; unfold ainv; (split; [|exact I]);
+        repeat (constructor; [apply tok_ok_noattr|]); exact Htoks.
     + destruct (x_tagbuf x) as [|t0 tb] eqn:Etb; cbn [negb]; [apply Hnone|].
       destruct (prefixb _ _) eqn:Ecl; [|apply Hnone].
       destruct (N.eqb r cGT) eqn:Egt; [|apply Hnone].
-      cbn [rinv]; unfold ainv. split; [|exact I].
-      constructor; [apply tok_ok_noattr|]. constructor; [apply tok_ok_noattr|exact Htoks].
+      destruct (firstn _ _); cbn [rinv]; unfold ainv; (split; [|exact I]);
+        repeat (constructor; [apply tok_ok_noattr|]); exact Htoks.
   - destruct (N.eqb r cLT) eqn:Elt; [|apply Hnone].
     apply N.eqb_eq in Elt; subst r. cbn [rinv]. apply new_tag_inv; [|exact Hp1].
     constructor; [apply tok_ok_noattr|exact Htoks].
@@ -327,7 +327,8 @@ Lemma dispatch_inv toks m r p0 p1 :
   ainv toks m p0 -> p1 = adv p0 r -> rinv (dispatch toks m r p0 p1) p0 p1.
 Proof.
   intros [Htoks H] Hp1. destruct m as [|x|g|e]; cbn [Scan.dispatch].
-  - destruct (N.eqb r cLT) eqn:Elt.
+  - destruct (raw_tag_of_last _ _ _) as [n|]; [apply text_step_inv; assumption|].
+    destruct (N.eqb r cLT) eqn:Elt.
     + apply N.eqb_eq in Elt; subst r. cbn [rinv]. apply new_tag_inv; assumption.
     + apply text_step_inv; assumption.
   - apply text_step_inv; assumption.
